@@ -887,7 +887,7 @@ OPS = {"add": "+", "sub": "-", "mul": "*", "and": "&", "or": "|", "xor": "~", "s
        "lt": "<", "le": "<=", "gt": ">", "ge": ">=", "eq": "==", "ne": "!=", "land": "&&", "lor": "||"}
 
 PRELUDE_TYPES = ("P :: struct { a: i32, b: u8 };\nQ :: struct { p: P, k: i64, f: bool };\n"
-                 "E :: enum { A: i32, B: u8, C, D: P };\n"
+                 "E :: enum { A: i32, B: u8, C, D: P };\nDI :: distinct i32;\n"
                  # a value becomes an error union by implicit conversion (here: at a return)
                  "eu_bi_ok :: (v: i32) -> bool!i32 { v }\neu_bi_err :: (e: bool) -> bool!i32 { e }\n"
                  "eu_pl_ok :: (v: i64) -> P!i64 { v }\neu_pl_err :: (e: P) -> P!i64 { e }\n")
@@ -908,7 +908,7 @@ class Render:
             if e.get("inline"):
                 f = e["inline"]
                 return self.fn_plain(f, ", ".join("%s: %s" % (p["n"], tyname(self.tup(p["ty"]))) for p in f["params"])).split(" :: ", 1)[1]
-            return e["f"]
+            return e.get("qual", "") + e["f"]
         if k == "callv":
             return "%s(%s)" % (self.expr(e["x"]), ", ".join(self.expr(a) for a in e["args"]))
         if k == "int":
@@ -931,6 +931,8 @@ class Render:
         if k == "cast":
             if e.get("tychar"):
                 return "char.(%s)" % self.expr(e["x"])
+            if e.get("tytext"):
+                return "%s.(%s)" % (e["tytext"], self.expr(e["x"]))
             return "%s.(%s)" % (e.get("tyv") or self.ty_of_jty(e["ty"]), self.expr(e["x"]))
         if k == "type":
             return e.get("text") or self.ty_of_jty(e["ty"])
@@ -940,7 +942,7 @@ class Render:
                 seq = [cargs[i] if kind == "c" else args[i] for kind, i in e["order"]]
             else:
                 seq = cargs + args
-            return "%s(%s)" % (e["f"], ", ".join(self.expr(a) for a in seq))
+            return "%s%s(%s)" % (e.get("qual", ""), e["f"], ", ".join(self.expr(a) for a in seq))
         if k == "idx":
             return "%s[%s]" % (self.expr(e["a"]), self.expr(e["i"]))
         if k == "fld":
@@ -1099,7 +1101,7 @@ class Render:
 def strip(x):
     """the abstract syntax without the renderer's annotations (types of lets / prints etc.)"""
     if isinstance(x, dict):
-        return {k: strip(v) for k, v in x.items() if k not in ("ty", "mut", "flat", "elem", "usize", "ret", "kind", "text", "plain", "sty", "order", "auto", "m", "char", "tychar", "inline", "lambda", "local", "comptime")
+        return {k: strip(v) for k, v in x.items() if k not in ("ty", "mut", "flat", "elem", "usize", "ret", "kind", "text", "plain", "sty", "order", "auto", "m", "char", "tychar", "inline", "lambda", "local", "comptime", "qual", "file", "tytext")
                 or (k == "ty" and x.get("e") in ("int", "cast", "rec", "type"))}
     if isinstance(x, (list, tuple)):
         return [strip(v) for v in x]
